@@ -377,7 +377,10 @@ impl<'t> DocGen<'t> {
             _ => {
                 let v = self.t.draw(10);
                 if lo < 0 {
-                    format!("-{v}")
+                    // "-0" is not generated: it is accepted by signed but not by unsigned integer members, while its
+                    // written form "0" is accepted by both, so that in IF_DATA a preceding sequence of unsigned
+                    // integers would claim it after a write (a degenerate literal, documented as input assumption)
+                    format!("-{}", v.max(1))
                 } else {
                     format!("+{v}")
                 }
